@@ -193,15 +193,9 @@ def run_fista_converged(p, x0, eps=0.0, lr=None, arrays=None):
 # The three defects found by this check (hals_nnls cold start 0/0, active_set_nnls rounding residue on the blocking
 # coordinate, fista stopping on the signed sum of the step) were repaired in /repo (5f3eaf7, dadc3ff, f4b2876); their
 # witnesses live in corpus/C13/*.json and run first.
-# Open (round 5): fista(ridge_coef=None) raises TypeError although the docstring offers `float or None`
-# (known_findings.d/C13.json: fista_ridge_coef_none; candidate repair build/fix_candidates/C13_fista_ridge_none.diff).
-def _clf_fista_ridge_none(f):
-    """fista called through its entry point with the documented value ridge_coef=None raises TypeError"""
-    inp = f.get("inputs") or {}
-    return bool(inp.get("entry_call")) and "ridge_coef" in inp and inp.get("ridge_coef") is None and "TypeError" in str(f.get("message", ""))
-
-
-CLASSIFIERS = {"fista_ridge_none": _clf_fista_ridge_none}
+# A fourth one (round 5): fista(ridge_coef=None) raised TypeError although the docstring offers `float or None`; repaired by ae57725
+# (Example C13_fista_ridge_none_before_ae57725; the entry-call cases C'' pass ridge_coef=None on every run).
+CLASSIFIERS = {}     # no known finding at present (fista_ridge_coef_none was repaired by /repo ae57725)
 
 
 def _load_known_with_own_snippet():
@@ -792,8 +786,8 @@ def run(chk):
                 chk.finding(EP_FISTA, dict(inp2, protocol="run to convergence (restarted, tol=0)", x0=None, epsilon=0.0), msg, "C13_kkt_optimal", observed=Vc)
 
     # ---------------- C''. the ENTRY POINT fista with its argument handling (Model/NnlsEntry.v fista_call): sparsity_coef / ridge_coef /
-    # lr / x passed as None or as numbers, tol = 0 (no stopping decision).  ridge_coef=None is offered by the docstring and raises
-    # TypeError: known finding fista_ridge_coef_none (the model says Err as well, so the correspondence holds on the code as it is)
+    # lr / x passed as None or as numbers, tol = 0 (no stopping decision).  ridge_coef=None (offered by the docstring) raised TypeError
+    # before /repo ae57725; it is read as 0 now, and so does the model
     for t in range(T["ncall"]):
         r, n = rng.randint(1, 5), rng.randint(1, 3)
         sp_arg = rng.choice([None, None, 0.0, 0.25])
@@ -916,8 +910,7 @@ def run(chk):
                        "'run to convergence' is a limit statement: proved are monotone descent + fixed point <=> KKT => optimal; that the returned point is an approximate fixed point is measured (CConv)"]
     chk.trusted = ["scipy.optimize.nnls as independent reference (objective value only)",
                    "static tie (C13_tie.py): the translator from the Python ast to Gallina terms is trusted to render the arithmetic faithfully (it knows only +, -, *, /, clip, where, dot, "
-                   "transpose, sum, abs, copy, solve and fails closed on anything else); what it does not translate (rec_error, nonzero_rows, callback / exact, list branch, default step, "
-                   "active_set_nnls apart from its interpolation step, admm's x_split) is tied by the differential correspondence only",
+                   "transpose, sum, abs, copy, solve and fails closed on anything else); what it does not translate (callback / exact, the list branch, the momentum recurrence, try / except and block solves of active_set_nnls) is tied by the differential correspondence only",
                    "the sqrt-defined FISTA momentum sequence and the leading singular value (numpy 2-norm) enter the model as recorded data",
                    "stopping decisions: when every decision e < t of the model's run is clear-cut (|e - t| > 1e-6 (|e| + |t|)) the implementation must return the model's result; only borderline decisions (incl. e = t = 0) fall back to accepting any prefix iterate"]
     return chk.finish(CLASSIFIERS)
